@@ -34,7 +34,8 @@ sv = sp.sv
 
 DICTSUB = z3.Function("DICTSUB", sp.S, sp.B)        # the class is a subclass of dict (ImageMetadata)
 ISTYPE_OTHER = z3.Function("ISTYPE_OTHER", sp.I, sp.B)
-TRUTHY = z3.Function("TRUTHY_CONTAINER", V, sp.B)
+UNITS_N = z3.Function("UNITS_N", V, sp.I)
+UNIT = z3.Function("UNIT", V, sp.I, V)
 
 
 class PV(Val):
@@ -265,6 +266,11 @@ class SerExecutor(Executor):
         if isinstance(a, PV) or isinstance(b, PV):
             ta, tb = self.to_pv(st, a), self.to_pv(st, b)
             return (ta == tb) if ta is not None and tb is not None else z3.BoolVal(False)
+        if isinstance(a, VSeq) and isinstance(b, VSeq):
+            i = z3.Int(fresh_name("ix"))
+            return z3.And(a.length == b.length, z3.Implies(z3.And(i >= 0, i < a.length), self._eqv(st, a.elem(i), b.elem(i))))
+        if isinstance(a, VSeq) or isinstance(b, VSeq):
+            return z3.BoolVal(False)
         if isinstance(a, VTuple) and isinstance(b, VTuple) and len(a.items) == len(b.items) and \
                 any(isinstance(x, (PV, PH)) for x in a.items + b.items):
             return z3.And([self._eqv(st, x, y) for x, y in zip(a.items, b.items)])
@@ -522,6 +528,14 @@ class SerExecutor(Executor):
         if name == "encode":
             s2 = self.fork_raise(st, sp.norm(z3.Not(V.is_Str(tt))), "AttributeError")
             return [] if s2 is None else [(s2, PTok("enc", sp.norm(V.s(tt))))]
+        if name == "iterate_units" and not args:
+            # ASSUMED: the units of an extraction result form a finite sequence of (encodable) dataclass instances
+            self.exc_any(st.fork(), f"{self.loc(node)} iterate_units")
+            n = UNITS_N(tt)
+            st.assume(n >= 0)
+            i = z3.Int("i!units")
+            st.assume(z3.ForAll([i], sp.SEROK(UNIT(tt, i)), patterns=[UNIT(tt, i)]))
+            return [(st, VSeq(n, lambda j, tt=tt: PV(UNIT(tt, j)), "unit"))]
         if name in ("tell", "seek", "read"):
             s2 = self.fork_raise(st, sp.norm(z3.Not(V.is_BytesIO(tt))), "AttributeError")
             if s2 is None:
@@ -737,18 +751,28 @@ class SerExecutor(Executor):
             self.unsupported(n, "non-list comprehension over a sequence")
         ex = self
 
-        def elem_at(i):
+        def elem_at(i, record=False):
             body = st.fork()
             body.frames.append(Frame({}, len(body.frames) - 1, body.frame.fnode))
             res = []
-            for s3 in ex.assign(g.target, seq.elem(i), body):
-                res.extend(ex.ev(n.elt, s3))
+            if not record:
+                ex.sinks.append([])      # exceptional continuations were recorded by the probe below
+            try:
+                for s3 in ex.assign(g.target, seq.elem(i), body):
+                    res.extend(ex.ev(n.elt, s3))
+            finally:
+                if not record:
+                    ex.sinks.pop()
             if len(res) != 1:
                 ex.unsupported(n, "element expression of a comprehension forks")
+            if record:
+                # what held on the normal path of the (arbitrary, in-range) element holds after the comprehension
+                for fact in res[0][0].pc[len(st.pc):]:
+                    st.assume(z3.Implies(z3.And(i >= 0, i < seq.length), fact))
             return res[0][1]
 
         probe = z3.Int(fresh_name("ci"))
-        elem_at(probe)      # raises / EXC-ANY sites of the element expression are recorded once
+        elem_at(probe, record=True)      # raises / EXC-ANY sites of the element expression are recorded once
         return [(st, VSeq(seq.length, elem_at, "comp"))]
 
     def comp_ordinal(self, node):
